@@ -1192,3 +1192,372 @@ Section C07_theorems.
     destruct m; try exact I; apply HV.
   Qed.
 End C07_theorems.
+
+(* ------------------------------------------------------------------ the owners of the lower layers await the running task *)
+(* Two more facts about the depth-first pass: every stack entry except the bottom one was pushed as a
+   dependency of the nearest "grey" task (dependencies scheduled) below it, and a task whose contexts are
+   active and which is not on top of the stack is grey.  Hence every task that owns a layer below the
+   running task t reaches t through the dependency lists of uncompleted tasks. *)
+Definition grey (s : st) (w : fid) : Prop := exists tk, get w s = Some (mkFut None (KTask tk)) /\ tk_ds tk = true.
+
+Definition par_ok (s : st) : Prop :=
+  forall above y below, tasks s = above ++ y :: below -> below <> [] ->
+    exists b1 w b2 tk, below = b1 ++ w :: b2 /\ get w s = Some (mkFut None (KTask tk)) /\ tk_ds tk = true /\
+      In y (tk_deps tk) /\ (forall v, In v b1 -> ~ grey s v).
+
+Definition ag_ok (s : st) : Prop :=
+  forall above u below tk, tasks s = above ++ u :: below -> above <> [] ->
+    get u s = Some (mkFut None (KTask tk)) -> tk_cact tk = true -> tk_ds tk = true.
+
+Definition AWs (s : st) : Prop := par_ok s /\ ag_ok s.
+
+Lemma in_tl_below {A} (l above : list A) y below h : l = above ++ y :: below -> In h below -> In h (tl l).
+Proof. intros -> H. destruct above; cbn; [exact H|]. apply in_or_app. right. right. exact H. Qed.
+
+Lemma in_tl_nontop {A} (l above : list A) u below : l = above ++ u :: below -> above <> [] -> In u (tl l).
+Proof. intros -> H. destruct above; [contradiction|]. cbn. apply in_or_app. right. left. reflexivity. Qed.
+
+Lemma grey_get s s' v : get v s' = get v s -> (grey s' v <-> grey s v).
+Proof. unfold grey. intros ->. reflexivity. Qed.
+
+(* the stack lost a prefix (or is unchanged) and the entries below the new top are unchanged *)
+Lemma aw_sub s s' pre : tasks s = pre ++ tasks s' -> (forall h, In h (tl (tasks s')) -> get h s' = get h s) -> AWs s -> AWs s'.
+Proof.
+  intros Ht Hg [Hp Ha]. split.
+  - intros above y below E Hb.
+    assert (E2 : tasks s = (pre ++ above) ++ y :: below) by (rewrite Ht, E, app_assoc; reflexivity).
+    destruct (Hp _ _ _ E2 Hb) as (b1 & w & b2 & tk & Eb & Hw & Hds & Hy & Hb1).
+    assert (Hin : forall v, In v below -> get v s' = get v s) by (intros v Hv; apply Hg; apply (in_tl_below _ _ _ _ _ E Hv)).
+    exists b1, w, b2, tk. split; [exact Eb|]. split; [rewrite Hin; [exact Hw|rewrite Eb; apply in_or_app; right; left; reflexivity]|].
+    split; [exact Hds|]. split; [exact Hy|]. intros v Hv Hgv. apply (Hb1 v Hv). apply (grey_get s s' v); [|exact Hgv].
+    apply Hin. rewrite Eb. apply in_or_app. left. exact Hv.
+  - intros above u below tk E Hab Hgu Hc.
+    assert (E2 : tasks s = (pre ++ above) ++ u :: below) by (rewrite Ht, E, app_assoc; reflexivity).
+    rewrite (Hg u (in_tl_nontop _ _ _ _ E Hab)) in Hgu.
+    apply (Ha _ _ _ tk E2); [|exact Hgu|exact Hc]. destruct pre; [exact Hab|discriminate].
+Qed.
+
+Lemma aw_short s : (length (tasks s) <= 1)%nat -> AWs s.
+Proof.
+  intros Hl. split.
+  - intros above y below E Hb. rewrite E, app_length in Hl. cbn in Hl. destruct below; [contradiction|cbn in Hl; lia].
+  - intros above u below tk E Hab. rewrite E, app_length in Hl. cbn in Hl. destruct above; [contradiction|cbn in Hl; lia].
+Qed.
+
+(* first visit of the top entry x: it becomes grey, its uncomputed dependencies are pushed *)
+Lemma aw_push s s' x ts tk tk' todo :
+  AWs s -> tasks s = x :: ts -> ~ In x ts ->
+  get x s' = Some (mkFut None (KTask tk')) -> tk_ds tk' = true -> tk_deps tk' = tk_deps tk ->
+  (forall h, h <> x -> get h s' = get h s) ->
+  tasks s' = rev todo ++ x :: ts ->
+  (forall d, In d todo -> In d (tk_deps tk) /\ d <> x /\
+             forall tkd, get d s = Some (mkFut None (KTask tkd)) -> tk_ds tkd = false /\ tk_cact tkd = false) ->
+  AWs s'.
+Proof.
+  intros [Hp Ha] Hts Hnx Hgx Hds Hdeps Hoth Hts' Htodo.
+  assert (Hsame : forall v, In v ts -> get v s' = get v s) by (intros v Hv; apply Hoth; intros ->; contradiction).
+  split.
+  - intros above y below E Hb. rewrite Hts' in E.
+    destruct (split_app _ _ _ _ _ E) as [(above' & -> & Hold)|(p1 & p2 & Hp1 & -> & ->)].
+    + assert (E2 : tasks s = above' ++ y :: below) by (rewrite Hts; exact Hold).
+      destruct (Hp _ _ _ E2 Hb) as (b1 & w & b2 & tkw & Eb & Hw & Hdw & Hy & Hb1).
+      assert (Hbel : forall v, In v below -> In v ts).
+      { intros v Hv. destruct above' as [|a a']; cbn in Hold; injection Hold as E3 E4; rewrite E4; [exact Hv|].
+        apply in_or_app. right. right. exact Hv. }
+      exists b1, w, b2, tkw. split; [exact Eb|].
+      split; [rewrite Hsame; [exact Hw|apply Hbel; rewrite Eb; apply in_or_app; right; left; reflexivity]|].
+      split; [exact Hdw|]. split; [exact Hy|]. intros v Hv Hgv. apply (Hb1 v Hv). apply (grey_get s s' v); [|exact Hgv].
+      apply Hsame. apply Hbel. rewrite Eb. apply in_or_app. left. exact Hv.
+    + exists p2, x, ts, tk'. split; [reflexivity|]. split; [exact Hgx|]. split; [exact Hds|]. split.
+      * rewrite Hdeps. apply Htodo. apply in_rev. rewrite Hp1. apply in_or_app. right. left. reflexivity.
+      * intros v Hv (tkv & Hgv & Hdv).
+        assert (Hvt : In v todo) by (apply in_rev; rewrite Hp1; apply in_or_app; right; right; exact Hv).
+        destruct (Htodo v Hvt) as (_ & Nv & Hfl). rewrite (Hoth v Nv) in Hgv. destruct (Hfl tkv Hgv) as [Hf _]. congruence.
+  - intros above u below tku E Hab Hgu Hc. rewrite Hts' in E.
+    destruct (split_app _ _ _ _ _ E) as [(above' & -> & Hold)|(p1 & p2 & Hp1 & -> & ->)].
+    + destruct above' as [|a a']; cbn in Hold; injection Hold as E3 E4.
+      * subst u. rewrite Hgx in Hgu. inversion Hgu; subst. exact Hds.
+      * assert (Hu : In u ts) by (rewrite E4; apply in_or_app; right; left; reflexivity).
+        rewrite (Hsame u Hu) in Hgu. apply (Ha (a :: a') u below tku); [rewrite Hts, E3, E4; reflexivity|discriminate|exact Hgu|exact Hc].
+    + assert (Hut : In u todo) by (apply in_rev; rewrite Hp1; apply in_or_app; right; left; reflexivity).
+      destruct (Htodo u Hut) as (_ & Nu & Hfl). rewrite (Hoth u Nu) in Hgu. destruct (Hfl tku Hgu) as [_ Hf]. congruence.
+Qed.
+
+(* from the two facts: a grey task reaches everything above it on the stack *)
+Lemma par_reach s : par_ok s -> forall n above u below tku, tasks s = above ++ u :: below ->
+  get u s = Some (mkFut None (KTask tku)) -> tk_ds tku = true ->
+  forall a1 y a2, above = a1 ++ y :: a2 -> (length a2 <= n)%nat -> reach s u y.
+Proof.
+  intros Hp. induction n as [|n IH]; intros above u below tku E Hgu Hdu a1 y a2 Ea Hlen.
+  - destruct a2; [|cbn in Hlen; lia]. subst above.
+    assert (E2 : tasks s = a1 ++ y :: (u :: below)) by (rewrite E, <- app_assoc; reflexivity).
+    destruct (Hp _ _ _ E2 ltac:(discriminate)) as (b1 & w & b2 & tkw & Eb & Hw & Hdw & Hy & Hb1).
+    destruct b1 as [|v b1'].
+    + cbn in Eb. injection Eb as E3 E4. subst w. apply (reach_dep s u u tkw y); [apply reach_refl|exact Hw|exact Hy].
+    + cbn in Eb. injection Eb as E3 E4. subst v. exfalso. apply (Hb1 u (or_introl eq_refl)). exists tku. auto.
+  - subst above.
+    assert (E2 : tasks s = a1 ++ y :: (a2 ++ u :: below)) by (rewrite E, <- app_assoc; reflexivity).
+    destruct (Hp _ _ _ E2) as (b1 & w & b2 & tkw & Eb & Hw & Hdw & Hy & Hb1); [destruct a2; discriminate|].
+    destruct (split_app _ _ _ _ _ Eb) as [(above' & -> & Hold)|(p1 & p2 & Hp1 & -> & ->)].
+    + destruct above' as [|a a']; cbn in Hold; injection Hold as E3 E4.
+      * subst w. apply (reach_dep s u u tkw y); [apply reach_refl|exact Hw|exact Hy].
+      * subst a. exfalso. apply (Hb1 u); [apply in_or_app; right; left; reflexivity|]. exists tku. auto.
+    + apply (reach_dep s u w tkw y); [|exact Hw|exact Hy].
+      apply (IH (a1 ++ y :: a2) u below tku E Hgu Hdu (a1 ++ y :: p1) w p2).
+      * rewrite Hp1, <- app_assoc. reflexivity.
+      * rewrite Hp1, app_length in Hlen. cbn in Hlen. lia.
+Qed.
+
+Lemma aw_frame s s' : tasks s' = tasks s -> (forall h, In h (tl (tasks s)) -> get h s' = get h s) -> AWs s -> AWs s'.
+Proof. intros Ht Hg. apply (aw_sub s s' []); [rewrite Ht; reflexivity|rewrite Ht; exact Hg]. Qed.
+
+Lemma in_tl {A} (l : list A) x : In x (tl l) -> In x l.
+Proof. destruct l; cbn; auto. Qed.
+
+Section Awaiting.
+  Variable P : params.
+  Hypothesis HP : pointwise P.
+  Variable root : fid.
+  Variable res : outcome.
+
+  Definition AW (c : cfg) : Prop :=
+    match c_mode c with MUnwind _ | MDone _ | MStuck => True | _ => AWs (c_st c) end.
+
+  Lemma aw_MValue spec S h fr s : DL root res spec S (mkC (MValue h) fr s) -> AW (mkC (MValue h) fr s) ->
+    AW (step P (mkC (MValue h) fr s)).
+  Proof.
+    intros (HFL & _) HA. destruct HFL as ((Hr & Hf & HS & Ht & ->) & _). cbn in Hf, Ht. subst fr. cbn [step c_mode c_frames c_st].
+    destruct (computed root s); [exact HA|]. destruct Ht as (out & tk & Hg). rewrite Hg. exact HA.
+  Qed.
+
+  Lemma aw_MDeliver spec S o fr s : DL root res spec S (mkC (MDeliver o) fr s) -> AW (step P (mkC (MDeliver o) fr s)).
+  Proof. intros (((Hr & Hf & _) & _) & _). cbn in Hf. subst fr. exact I. Qed.
+
+  Lemma aw_MWaitHead spec S fr s : DL root res spec S (mkC MWaitHead fr s) -> AW (mkC MWaitHead fr s) ->
+    AW (step P (mkC MWaitHead fr s)).
+  Proof.
+    intros (HFL & _) HA. destruct HFL as ((Hr & Hf & HS & Ht & _) & HF & HK). cbn in Hf, HK. subst fr. cbn [step c_mode c_frames c_st].
+    destruct (computed root s); [exact HA|]. apply aw_short. cbn. rewrite HK. cbn. lia.
+  Qed.
+
+  Lemma aw_MAfterExec spec S fr s : DL root res spec S (mkC MAfterExec fr s) -> AW (mkC MAfterExec fr s) ->
+    AW (step P (mkC MAfterExec fr s)).
+  Proof.
+    intros (HFL & _) HA. destruct HFL as ((Hr & Hf & HS & Ht & _) & HF & HK). cbn in Hf, HK. subst fr. cbn [step c_mode c_frames c_st].
+    destruct (computed root s); [exact HA|]. apply aw_short. cbn [c_st].
+    rewrite (tasks_of_regs s _ (regs_continue_with_batch P s)), HK. cbn. lia.
+  Qed.
+
+  Lemma aw_MExecLoop spec S fr s : DL root res spec S (mkC MExecLoop fr s) -> AW (mkC MExecLoop fr s) ->
+    AW (step P (mkC MExecLoop fr s)).
+  Proof.
+    intros (HFL & HD & HPk) HA. unfold AW in HA. cbn [c_mode c_st] in HA.
+    destruct HFL as ((Hr & Hf & HS & Ht & _) & HF & HK). cbn in Hf, HS, Ht, HF, HK. subst fr.
+    cbn [c_mode c_frames c_st] in HD, HPk. cbn [step c_mode c_frames c_st].
+    destruct (Nat.leb (length (tasks s)) 0); [exact HA|].
+    destruct (Z.ltb _ _); [exact I|].
+    destruct (tasks s) as [|x ts] eqn:Hts; [exact HA|].
+    assert (Hnd : ~ In x ts) by (pose proof (pk_nodup _ _ _ _ HPk) as N; rewrite Hts in N; inversion N; assumption).
+    assert (Hpop : forall s2, tasks s2 = x :: ts -> (forall h, h <> x -> get h s2 = get h s) ->
+               AW (mkC MExecLoop [FExec 0; FWait root; FTop] (pop_task s2))).
+    { intros s2 Ht2 Hoth. unfold AW. cbn [c_mode c_st].
+      apply (aw_sub s (pop_task s2) [x]); [rewrite Hts; unfold pop_task; cbn [tasks with_tasks]; rewrite Ht2; reflexivity| |exact HA].
+      intros h Hh. change (get h (pop_task s2)) with (get h s2). apply Hoth. intros ->. apply Hnd.
+      unfold pop_task in Hh. cbn [tasks with_tasks] in Hh. rewrite Ht2 in Hh. cbn [tl] in Hh. apply in_tl. exact Hh. }
+    destruct (computed x s) eqn:Hcx; [apply (Hpop s); auto|].
+    destruct (get x s) as [[out [tk|kind idx key a|o'|]]|] eqn:Hg.
+    - assert (out = None) as -> by (unfold computed in Hcx; rewrite Hg in Hcx; cbn in Hcx; destruct out; [discriminate|reflexivity]).
+      destruct (is_blocked tk s) eqn:Hb.
+      + destruct (tk_ds tk) eqn:Hds.
+        * pose proof (set_task_upd s x None tk (tk_set_ds tk false) Hg) as U1. pose proof U1 as (G1 & _).
+          assert (HS1 : SInv spec None (set_task x (tk_set_ds tk false) s)) by (apply (SInv_set_task_same spec None s x None tk); auto).
+          pose proof (pause_entry spec None _ x None _ HS1 G1) as U2.
+          pose proof (upd_entry_trans _ _ _ _ _ _ U1 U2) as U.
+          apply Hpop.
+          -- rewrite (tasks_of_regs s); [exact Hts|]. rewrite regs_pause_contexts, regs_set_task. reflexivity.
+          -- destruct U as (_ & B & _). exact B.
+        * pose proof (set_task_upd s x None tk (tk_set_ds tk true) Hg) as U1. pose proof U1 as (G1 & _).
+          assert (HS1 : SInv spec None (set_task x (tk_set_ds tk true) s)) by (apply (SInv_set_task_same spec None s x None tk); auto).
+          pose proof (resume_entry spec None _ x None _ HS1 G1) as U2.
+          pose proof (upd_entry_trans _ _ _ _ _ _ U1 U2) as U.
+          set (s2 := resume_contexts x (set_task x (tk_set_ds tk true) s)) in *.
+          set (tk' := tk_with_ctxs (tk_set_ds tk true) (tk_ctxs (tk_set_ds tk true)) true) in *.
+          pose proof (computed_upd_none s s2 x tk tk' Hg U) as Hcomp.
+          assert (Hgt : get_task x s2 = Some tk') by (unfold get_task; destruct U as (A & _); rewrite A; reflexivity).
+          rewrite Hgt. change (tk_deps tk') with (tk_deps tk).
+          assert (Ht2 : tasks s2 = x :: ts).
+          { rewrite (tasks_of_regs s); [exact Hts|]. unfold s2. rewrite regs_resume_contexts, regs_set_task. reflexivity. }
+          set (todo := filter (fun d => negb (computed d s2)) (tk_deps tk)).
+          unfold AW. cbn [c_mode c_st].
+          apply (aw_push s _ x ts tk tk' todo HA Hts Hnd).
+          -- change (get x (with_tasks s2 ?l)) with (get x s2). destruct U as (A & _). exact A.
+          -- reflexivity.
+          -- reflexivity.
+          -- intros h N. change (get h (with_tasks s2 ?l)) with (get h s2). destruct U as (_ & B & _). apply B. exact N.
+          -- cbn [tasks with_tasks]. rewrite Ht2. reflexivity.
+          -- intros d Hd. apply filter_In in Hd as [Hd1 Hd2]. apply negb_true_iff in Hd2. rewrite Hcomp in Hd2.
+             assert (HSx : ~ S x) by (intros HSx; apply (pk_off _ _ _ _ HPk x HSx); rewrite Hts; left; reflexivity).
+             destruct (pk_white _ _ _ _ HPk x tk Hg Hds ltac:(discriminate) HSx d Hd1 Hd2) as [_ Hnin].
+             split; [exact Hd1|]. split; [intros ->; apply Hnin; rewrite Hts; left; reflexivity|].
+             intros tkd Hgd. destruct (HF d tkd Hgd) as [Hfl _].
+             split; [destruct (tk_ds tkd) eqn:E; [exfalso; apply Hnin, Hfl; left; reflexivity|reflexivity]|].
+             destruct (tk_cact tkd) eqn:E; [exfalso; apply Hnin, Hfl; right; reflexivity|reflexivity].
+      + rewrite (computed_resume_contexts spec None s x HS x), Hcx.
+        pose proof (resume_entry spec None s x None tk HS Hg) as U.
+        unfold AW. cbn [c_mode c_st]. apply (aw_frame s); [|intros h Hh|exact HA].
+        * change (tasks (with_active ?a ?b)) with (tasks a). apply tasks_of_regs. apply regs_resume_contexts.
+        * change (get h (with_active ?a ?b)) with (get h a). destruct U as (_ & B & _). apply B. intros ->. apply Hnd.
+          rewrite Hts in Hh. exact Hh.
+    - assert (Hh : heap (schedule_batch (kind, idx) s) = heap s) by (unfold schedule_batch; destruct (b_done _); [reflexivity|]; destruct (existsb _ _); reflexivity).
+      apply Hpop; [rewrite (tasks_of_regs s); [exact Hts|apply regs_schedule_batch]|]. intros h _. unfold get. rewrite Hh. reflexivity.
+    - apply Hpop; [exact Hts|]. intros h N. apply get_put_other. exact N.
+    - apply (Hpop s); auto.
+    - apply (Hpop s); auto.
+  Qed.
+
+  Lemma aw_MResume spec S t fr s : DL root res spec S (mkC (MResume t) fr s) -> AW (mkC (MResume t) fr s) ->
+    AW (step P (mkC (MResume t) fr s)).
+  Proof.
+    intros (HFL & HD & HPk & Hrd) HA. unfold AW in HA. cbn [c_mode c_st] in HA, HPk.
+    destruct HFL as ((Hr & Hf & HS & Ht & (tk & Hg & Hcomp)) & HF & HK). cbn in HK, HS, HF, Hg.
+    destruct HK as ((old & ->) & (rest & Hts) & Hca).
+    assert (Hnt : ~ In t rest) by (pose proof (pk_nodup _ _ _ _ HPk) as N; rewrite Hts in N; inversion N; assumption).
+    cbn [step c_mode c_frames c_st]. unfold get_task. rewrite Hg.
+    destruct (SInv_entry _ _ _ _ _ HS Hg) as (_ & ot & Hst & _ & Hp & Hk). cbn in Hp, Hk.
+    destruct (Hk eq_refl ltac:(discriminate)) as (k & K1 & _). rewrite K1.
+    set (tk1 := mkTask (Some k) YNone (if p_keep P then tk_deps tk else []) (tk_ctxs tk) (tk_cact tk) (tk_ds tk) (tk_iter tk + 1) (tk_next tk)).
+    set (s2 := emit (EvStep t (tk_iter tk) (unwrap (look s) (tk_last tk))) (set_task t tk1 s)).
+    assert (U : upd_entry s s2 t (mkFut None (KTask tk1))).
+    { eapply upd_entry_view; [apply (set_task_upd s t None tk tk1 Hg)|reflexivity|reflexivity|reflexivity]. }
+    assert (Htk : tasks s2 = tasks s) by (apply tasks_of_regs; unfold s2; rewrite regs_emit, regs_set_task; reflexivity).
+    unfold AW. cbn [c_mode c_st]. apply (aw_frame s s2 Htk); [|exact HA].
+    intros h Hh. destruct U as (_ & B & _). apply B. intros ->. apply Hnt. rewrite Hts in Hh. exact Hh.
+  Qed.
+
+  Lemma aw_MContRet spec S fr s : DL root res spec S (mkC MContRet fr s) -> AW (mkC MContRet fr s) ->
+    AW (step P (mkC MContRet fr s)).
+  Proof.
+    intros (HFL & HD & (t0 & rest0 & Hts0 & HPk & Har)) HA. unfold AW in HA. cbn [c_mode c_st] in HA, HPk, Hts0.
+    destruct HFL as ((Hr & Hf & HS & Ht & _) & HF & HK). cbn in HK, HF.
+    destruct HK as (t & old & rest & -> & Hts & Hca).
+    assert (Hnt : ~ In t rest) by (pose proof (pk_nodup _ _ _ _ HPk) as N; rewrite Hts in N; inversion N; assumption).
+    cbn [step c_mode c_frames c_st].
+    set (s1 := with_active s old). unfold get_task. change (get t s1) with (get t s).
+    destruct (get t s) as [[out [tk| | |]]|] eqn:Hg; try exact HA.
+    pose proof (set_task_upd s1 t out tk (tk_set_ds tk false) Hg) as U.
+    unfold AW. cbn [c_mode c_st]. apply (aw_frame s); [|intros h Hh|exact HA].
+    - apply (tasks_of_regs s1). apply regs_set_task.
+    - destruct U as (_ & B & _). rewrite B; [reflexivity|]. intros ->. apply Hnt. rewrite Hts in Hh. exact Hh.
+  Qed.
+
+  Lemma aw_MRun spec S t p fr s : DL root res spec S (mkC (MRun t p) fr s) -> AW (mkC (MRun t p) fr s) ->
+    AW (step P (mkC (MRun t p) fr s)).
+  Proof.
+    intros (HFL & HD & HPk & Hrd & Hit) HA. unfold AW in HA. cbn [c_mode c_st] in HA, HPk.
+    destruct HFL as ((Hr & Hf & HS & Ht & (Htree & Hst & (tk & Hg))) & HF & HK). cbn in HK, HS, HF, Hg, Ht.
+    destruct HK as ((old & ->) & (rest & Hts) & Hca).
+    assert (Hnt : ~ In t rest) by (pose proof (pk_nodup _ _ _ _ HPk) as N; rewrite Hts in N; inversion N; assumption).
+    assert (Hgen : forall s', tasks s' = tasks s -> (forall h, h <> t -> get h s <> None -> get h s' = get h s) -> AWs s').
+    { intros s' Ht' Ho. apply (aw_frame s s' Ht'); [|exact HA]. intros h Hh. rewrite Hts in Hh. cbn [tl] in Hh.
+      apply Ho; [intros ->; contradiction|]. apply (pk_alloc _ _ _ _ HPk). rewrite Hts. right. exact Hh. }
+    cbn [step c_mode c_frames c_st]. unfold get_task. rewrite Hg.
+    assert (Hfin : forall o, let s1 := set_task t (mkTask None (tk_last tk) (tk_deps tk) (tk_ctxs tk) (tk_cact tk) (tk_ds tk) (tk_iter tk) (tk_next tk)) s in
+              computed t s1 = false /\ AWs (complete_task t o s1)).
+    { intros o. cbn zeta.
+      set (tkc := mkTask None (tk_last tk) (tk_deps tk) (tk_ctxs tk) (tk_cact tk) (tk_ds tk) (tk_iter tk) (tk_next tk)).
+      pose proof (set_task_upd s t None tk tkc Hg) as U1. pose proof U1 as (G1 & _).
+      split; [unfold computed; rewrite G1; reflexivity|].
+      rewrite (complete_task_closed t o _ None tkc G1 eq_refl).
+      set (ent := mkFut (Some o) (KTask (mkTask None YNone [] (tk_ctxs tkc) (tk_cact tkc) (tk_ds tkc) (tk_iter tkc) (tk_next tkc)))).
+      assert (U2 : upd_entry s (emit (EvDone t o) (put t ent (set_task t tkc s))) t ent).
+      { eapply upd_entry_trans; [exact U1|]. eapply upd_entry_view; [apply upd_entry_put|reflexivity|reflexivity|reflexivity]. }
+      apply Hgen; [apply tasks_of_regs; rewrite regs_emit, regs_put, regs_set_task; reflexivity|].
+      intros h N _. destruct U2 as (_ & B & _). apply B. exact N. }
+    inversion Htree as [v Ev|v Ev|e Ev|y k Hl Hk Ev|c k Hc Hk Ev|c k Hc Hk Ev]; subst p.
+    - destruct (Hfin (Ok v)) as (Hnc & A). cbn zeta in *. rewrite Hnc. exact A.
+    - destruct (Hfin (Ok v)) as (Hnc & A). cbn zeta in *. rewrite Hnc. exact A.
+    - destruct (Hfin (Err e)) as (Hnc & A). cbn zeta in *. unfold accept_error. rewrite Hnc. exact A.
+    - destruct (SInv_inst (Some t) t y spec s HS Hl) as (spec1 & (Ext & HS1 & Old) & Uw & A).
+      pose proof (regs_inst t y s) as Hri.
+      destruct (inst t y s) as [y' s1]. cbn [fst snd] in *.
+      assert (Hg1 : get t s1 = Some (mkFut None (KTask tk))) by (rewrite Old; [exact Hg|rewrite Hg; discriminate]).
+      rewrite Hg1.
+      set (tk2 := mkTask (Some k) y' (tk_deps tk ++ futs (extract y')) (tk_ctxs tk) (tk_cact tk) (tk_ds tk) (tk_iter tk) (tk_next tk)).
+      pose proof (set_task_upd s1 t None tk tk2 Hg1) as U2.
+      assert (A2 : AWs (set_task t tk2 s1)).
+      { apply Hgen.
+        - transitivity (tasks s1); [apply tasks_of_regs; apply regs_set_task|apply tasks_of_regs; exact Hri].
+        - intros h N Hh. destruct U2 as (_ & B & _). rewrite B by exact N. apply Old. exact Hh. }
+      destruct (tk_deps tk ++ futs (extract y')); exact A2.
+    - unfold enter_ctx, get_task. rewrite Hg.
+      set (tk1 := tk_with_ctxs tk (tk_ctxs tk ++ [c]) (tk_cact tk)).
+      pose proof (set_task_upd s t None tk tk1 Hg) as U1.
+      assert (V : forall s2, heap s2 = heap (set_task t tk1 s) -> tasks s2 = tasks (set_task t tk1 s) -> AWs s2).
+      { intros s2 E1 E2. apply Hgen; [rewrite E2; apply tasks_of_regs; apply regs_set_task|].
+        intros h N _. unfold get. rewrite E1. destruct U1 as (_ & B & _). apply B. exact N. }
+      destruct c as [cid f|cid|cid var v]; apply V; reflexivity.
+    - unfold exit_ctx, get_task. rewrite Hg.
+      set (tk1 := tk_with_ctxs tk (remove_ctx c (tk_ctxs tk)) (tk_cact tk)).
+      pose proof (set_task_upd s t None tk tk1 Hg) as U1.
+      assert (V : forall s2, heap s2 = heap (set_task t tk1 s) -> tasks s2 = tasks (set_task t tk1 s) -> AWs s2).
+      { intros s2 E1 E2. apply Hgen; [rewrite E2; apply tasks_of_regs; apply regs_set_task|].
+        intros h N _. unfold get. rewrite E1. destruct U1 as (_ & B & _). apply B. exact N. }
+      unfold pause_plain. destruct c as [cid f|cid|cid var v]; apply V; reflexivity.
+  Qed.
+
+  Theorem aw_step spec S c : is_unwind (c_mode c) = false -> DL root res spec S c -> AW c -> AW (step P c).
+  Proof.
+    destruct c as [m fr s]. destruct m; cbn [c_mode is_unwind]; intros Hu HD HA; try discriminate.
+    - apply (aw_MValue spec S); assumption.
+    - apply (aw_MWaitHead spec S); assumption.
+    - apply (aw_MAfterExec spec S); assumption.
+    - apply (aw_MExecLoop spec S); assumption.
+    - apply (aw_MResume spec S); assumption.
+    - apply (aw_MRun spec S); assumption.
+    - apply (aw_MContRet spec S); assumption.
+    - apply (aw_MDeliver spec S); assumption.
+    - exact HA.
+    - exact HA.
+  Qed.
+
+  Theorem aw_run n : forall spec S c, DL root res spec S c -> AW c -> no_unwind P n c -> AW (run P n c).
+  Proof.
+    induction n as [|n IH]; intros spec S c HD HA Hn; [exact HA|].
+    rewrite run_S. destruct (is_final (c_mode c)) eqn:Hf; [exact HA|].
+    assert (Hu : is_unwind (c_mode c) = false) by (apply (Hn O); lia).
+    destruct (dl_step P HP root res spec S c Hu HD) as (spec1 & S1 & HD1).
+    apply (IH spec1 S1); [exact HD1|apply (aw_step spec S); assumption|].
+    intros k Hk. specialize (Hn (Datatypes.S k) ltac:(lia)). rewrite run_S, Hf in Hn. exact Hn.
+  Qed.
+End Awaiting.
+
+Section C07_awaiting.
+  Variable P : params.
+  Hypothesis HP : pointwise P.
+  Variable p : prog.
+  Hypothesis Ht : tree p.
+
+  Let h := fst (create [] (FTask p) (st0 P)).
+  Let s1 := snd (create [] (FTask p) (st0 P)).
+
+  (* while the body of t runs, every task that owns a layer below t's own (an uncomputed task below t on the
+     scheduler stack whose contexts are active) awaits t, directly or through other uncompleted tasks *)
+  Theorem layer_owners_await_tree n t q :
+    no_unwind P n (start h s1) -> c_mode (run P n (start h s1)) = MRun t q ->
+    let s := c_st (run P n (start h s1)) in
+    forall rest, tasks s = t :: rest -> forall u c, In (u, c) (lower s rest) -> reach s u t.
+  Proof.
+    intros Hn Hm. cbn zeta.
+    assert (H0 : no_unwind P 0 (start h s1)) by (intros k Hk; assert (k = O) as -> by lia; reflexivity).
+    destruct (dl_reach P HP p Ht 0 H0) as (spec & S & HD). fold h s1 in HD. cbn [run] in HD.
+    assert (HA0 : AW (start h s1)) by (apply aw_short; cbn; lia).
+    pose proof (aw_run P HP h (eval p) n spec S (start h s1) HD HA0 Hn) as HA.
+    destruct (run P n (start h s1)) as [m fr s]. cbn [c_mode c_st] in *. subst m.
+    unfold AW in HA. cbn [c_mode c_st] in HA. destruct HA as [Hpar Hag].
+    intros rest Hts u c Hin. destruct (lower_in s rest u c Hin) as (Hu & tku & Hgu & Hcu & _).
+    apply in_split in Hu as (r1 & r2 & ->).
+    assert (E : tasks s = (t :: r1) ++ u :: r2) by (rewrite Hts; reflexivity).
+    assert (Hds : tk_ds tku = true) by (apply (Hag (t :: r1) u r2 tku E); [discriminate|exact Hgu|exact Hcu]).
+    apply (par_reach s Hpar (length r1) (t :: r1) u r2 tku E Hgu Hds [] t r1 eq_refl (le_n _)).
+  Qed.
+End C07_awaiting.
